@@ -407,5 +407,42 @@ fn main() {
         }
         run.merge(t);
     }
+    // typed-looking values: every value another parser of the library would canonicalise, in
+    // every string and list variable (values are stored and printed verbatim)
+    {
+        let mut t = Tally::new();
+        let vals = mc_core::chars::TYPED_VALUES;
+        run.bound(format!("typed-looking values: {} values (package paths, digest names, package names / patterns, numbers, booleans, other formats' syntax) x every string and list variable on the minimal and the full entry", vals.len()));
+        for seed in ["minimal", "full"] {
+            for (i, (_, kind, _)) in VARS.iter().enumerate() {
+                for (vi, v) in vals.iter().enumerate() {
+                    let other = vals[(vi + 7) % vals.len()];
+                    let opsv: Vec<Op> = match kind {
+                        Kind::S => vec![Op::Set(i, Val::S(v.to_string()))],
+                        Kind::A => vec![Op::Set(i, Val::A(vec![v.to_string(), other.to_string()])), Op::Push(i, v.to_string())],
+                        Kind::I => continue,
+                    };
+                    if let Some((mut real, mut model)) = build(seed, &[], &mut t) {
+                        let mut hist = vec![];
+                        for op in opsv {
+                            hist.push(op.clone());
+                            if guard(|| op.apply_real(&mut real)).is_err() {
+                                t.violation(Violation::new("history", hist_json(seed, &hist), json!("returns"), json!("panic"), "setter panicked"));
+                                break;
+                            }
+                            op.apply_model(&mut model);
+                            t.states += 1;
+                            t.transitions += 1;
+                            let h = hist.clone();
+                            if !check_state(&mut t, &real, &model, &move || hist_json(seed, &h)) {
+                                break;
+                            }
+                        }
+                    }
+                }
+            }
+        }
+        run.merge(t);
+    }
     run.finish();
 }
